@@ -684,6 +684,19 @@ class Gen:
                 fname = self.fresh("f")
                 stmts.append(("let", fname, Node("lam", ps, body)))
                 ctx["vars"].append((fname, ("fn", m), False))
+                if self.p.get("write_after_capture", True) and self.p.get("assign", True) and r.chance(1, 2):
+                    # the enclosing function writes a variable the closure has captured, then applies the closure:
+                    # the closure shares the variable (it must see the new value), it does not hold a copy
+                    import re
+                    words = set(re.findall(r"[A-Za-z_][A-Za-z0-9_]*", src(body)))
+                    shared = [v for v in ctx["vars"] if v[1] == F and v[2] and v[0] in words]
+                    if shared:
+                        v = r.pick(shared)
+                        stmts.append(("set", v[0], self.simple(d, ctx)))
+                        y = self.fresh()
+                        stmts.append(("let", y, Node("app", Node("var", fname), [self.simple(d, ctx) for _ in ps])))
+                        ctx["vars"].append((y, F, True))
+                        self.bump("s_write_after_capture")
             else:
                 v = r.pick(mut)
                 stmts.append(("set", v[0], self.simple(d, ctx)))
